@@ -76,6 +76,8 @@ def make_mab(cfg):
               seed=cfg.get("seed", 123456), n_jobs=cfg.get("n_jobs", 1), backend=cfg.get("backend"))
     if cfg.get("int_ctx"):
         mab._verif_int_ctx = True        # twinlib.apply_op passes integral contexts as integer-typed rows
+    if cfg.get("as_pandas"):
+        mab._verif_as_pandas = True      # ... and decisions / rewards / contexts as pandas containers
     return mab
 
 
